@@ -799,8 +799,8 @@ func modeC09(e *Env) {
 						}
 						cells[k] = Cell{St: "val", Bytes: append(leN(uint64(lim), map[bool]int{true: 2, false: 1}[c.P1 > 255]), randBytes(e.R, lim)...)}
 					case "blob", "geometry":
-						if c.P1 == 2 && lim > 65535 {
-							lim = 65535
+						if c.P1 < 4 && lim > 1<<(8*uint(c.P1))-1 {
+							lim = 1<<(8*uint(c.P1)) - 1 // the largest length the prefix can hold
 						}
 						cells[k] = Cell{St: "val", Bytes: append(leN(uint64(lim), c.P1), randBytes(e.R, lim)...)}
 					default:
